@@ -1,4 +1,4 @@
 (* Extract_hop.v — extraction of the hop-by-hop filter model (ExtrOcamlBasic only). *)
 Require Import ExtrOcamlBasic.
-Require Import SquidV.Bytes SquidV.HopModel.
-Extraction "m_hop.ml" list_items is_member conn_value resp_kept req_kept hdr_id.
+Require Import SquidV.Bytes SquidV.HopModel SquidV.HopRevalModel.
+Extraction "m_hop.ml" list_items is_member conn_value resp_kept req_kept hdr_id reval_kept.
